@@ -73,26 +73,23 @@ Section Proofs.
   Lemma last_snoc {A} (l : list A) x d : last (l ++ [x]) d = x.
   Proof. induction l as [|a l IH]; [reflexivity|]. cbn [app]. destruct (l ++ [x]) eqn:E; [destruct l; discriminate|]. cbn. cbn in IH. exact IH. Qed.
 
-  (* shape shared by the two successful execute paths *)
-  Lemma group_ok_exec_ok ids c r pre n :
-    expected_reply r = Some MExecuteReplyOk -> is_execute r = true ->
-    forallb (fun o => o_sig_ok o && o_parent_ok o) pre = true ->
-    filter is_shell pre = [] ->
-    (exists p0 prest, filter (fun o => negb (is_shell o)) pre = p0 :: prest /\ o_type p0 = MStatusBusy) ->
-    group_ok ids c r (pre ++ [shell ids MExecuteReplyOk (Some c)] ++ stdout_msgs n ++ [iopub MStatusIdle None]) = true.
+  Lemma filter_repeat_if {A} (f : A -> bool) x n : filter f (repeat x n) = if f x then repeat x n else [].
+  Proof. destruct (f x) eqn:H; [apply filter_repeat_true|apply filter_repeat_false]; exact H. Qed.
+
+  Lemma last_app_snoc {A} (a : A) (l m : list A) x d : last (a :: l ++ m ++ [x]) d = x.
   Proof.
-    intros He Hx Hsp Hsh (p0 & prest & Hio & Hb).
-    unfold group_ok. rewrite He, Hx. rewrite stdout_msgs_repeat.
-    rewrite !forallb_app, Hsp, forallb_repeat by reflexivity. cbn [forallb shell iopub o_sig_ok o_parent_ok andb].
-    rewrite !filter_app, Hsh, Hio. rewrite !(filter_repeat_false is_shell) by reflexivity.
-    rewrite !(filter_repeat_true (fun o => negb (is_shell o))) by reflexivity.
-    cbn [filter is_shell chan_eqb o_chan shell iopub negb app o_ids o_type o_count].
-    rewrite frames_eqb_refl. cbn [mtype_eqb option_eqb andb]. rewrite N.eqb_refl. rewrite Hb. cbn [mtype_eqb andb].
-    replace (p0 :: prest ++ repeat stream_out (N.to_nat n) ++ [iopub MStatusIdle None])
-      with ((p0 :: prest ++ repeat stream_out (N.to_nat n)) ++ [iopub MStatusIdle None])
-      by (cbn [app]; rewrite <- app_assoc; reflexivity).
-    rewrite last_snoc. reflexivity.
+    replace (a :: l ++ m ++ [x]) with ((a :: l ++ m) ++ [x]) by (cbn [app]; rewrite <- app_assoc; reflexivity).
+    apply last_snoc.
   Qed.
+
+  Ltac norm_group :=
+    unfold strip_stream, count_stream;
+    rewrite ?filter_app, ?forallb_app, ?map_app; rewrite ?filter_repeat_if;
+    cbn [filter is_shell is_stream chan_eqb mtype_eqb o_chan o_type shell iopub stream_out negb app map forallb
+         o_sig_ok o_parent_ok o_count o_ids andb];
+    rewrite ?filter_app, ?filter_repeat_if, ?map_app, ?app_nil_r;
+    cbn [filter is_shell is_stream chan_eqb mtype_eqb o_chan o_type shell iopub stream_out negb app map forallb
+         o_sig_ok o_parent_ok o_count o_ids andb].
 
   Lemma group_ok_handle_ok st ids r :
     group_ok ids (k_count st) r (snd (handle_ok st ids r)) = true.
@@ -101,28 +98,35 @@ Section Proofs.
     destruct (r_type r) eqn:T.
     - (* execute *)
       destruct (r_outcome r) eqn:O; cbn [snd].
-      + apply (group_ok_exec_ok ids (k_count st) r [iopub MStatusBusy None; iopub MExecuteInput (Some (k_count st))]).
-        * unfold expected_reply. rewrite T, O. reflexivity.
-        * unfold is_execute. rewrite T. reflexivity.
-        * reflexivity.
-        * reflexivity.
-        * cbn. eauto.
-      + apply (group_ok_exec_ok ids (k_count st) r
-                 [iopub MStatusBusy None; iopub MExecuteInput (Some (k_count st)); iopub MExecuteResult (Some (k_count st))]).
-        * unfold expected_reply. rewrite T, O. reflexivity.
-        * unfold is_execute. rewrite T. reflexivity.
-        * reflexivity.
-        * reflexivity.
-        * cbn. eauto.
-      + unfold group_ok, expected_reply, is_execute. rewrite T, O. cbn. rewrite frames_eqb_refl, N.eqb_refl. reflexivity.
-      + unfold group_ok, expected_reply, is_execute. rewrite T, O. cbn. rewrite frames_eqb_refl, N.eqb_refl. reflexivity.
-    - cbn. unfold group_ok, expected_reply, is_execute. rewrite T. cbn. rewrite frames_eqb_refl. reflexivity.
-    - cbn. unfold group_ok, expected_reply, is_execute. rewrite T. cbn. rewrite frames_eqb_refl. reflexivity.
-    - cbn. unfold group_ok, expected_reply, is_execute. rewrite T. cbn. rewrite frames_eqb_refl. reflexivity.
-    - cbn. unfold group_ok, expected_reply, is_execute. rewrite T. cbn. rewrite frames_eqb_refl. reflexivity.
-    - cbn. unfold group_ok, expected_reply, is_execute. rewrite T. cbn. rewrite frames_eqb_refl. reflexivity.
-    - cbn. unfold group_ok, expected_reply, is_execute. rewrite T. cbn. reflexivity.
-    - cbn. unfold group_ok, expected_reply, is_execute. rewrite T. cbn. reflexivity.
+      + unfold group_ok, expected_reply, expected_iopub, ok_cell, is_execute. rewrite T, O. rewrite stdout_msgs_repeat.
+        norm_group.
+        rewrite !forallb_repeat by reflexivity.
+        rewrite frames_eqb_refl, N.eqb_refl. cbn [list_eqb mtype_eqb option_eqb andb].
+        rewrite ?N.eqb_refl, repeat_length, Nat.eqb_refl.
+        change (iopub MStatusBusy None :: iopub MExecuteInput (Some (k_count st))
+                  :: repeat stream_out (N.to_nat (r_stdout r)) ++ [iopub MStatusIdle None])
+          with (iopub MStatusBusy None :: [iopub MExecuteInput (Some (k_count st))]
+                  ++ repeat stream_out (N.to_nat (r_stdout r)) ++ [iopub MStatusIdle None]).
+        rewrite last_app_snoc. destruct (is_execute r); reflexivity.
+      + unfold group_ok, expected_reply, expected_iopub, ok_cell, is_execute. rewrite T, O. rewrite stdout_msgs_repeat.
+        norm_group.
+        rewrite !forallb_repeat by reflexivity.
+        rewrite frames_eqb_refl, N.eqb_refl. cbn [list_eqb mtype_eqb option_eqb andb].
+        rewrite ?N.eqb_refl, repeat_length, Nat.eqb_refl.
+        change (iopub MStatusBusy None :: iopub MExecuteInput (Some (k_count st)) :: iopub MExecuteResult (Some (k_count st))
+                  :: repeat stream_out (N.to_nat (r_stdout r)) ++ [iopub MStatusIdle None])
+          with (iopub MStatusBusy None :: [iopub MExecuteInput (Some (k_count st)); iopub MExecuteResult (Some (k_count st))]
+                  ++ repeat stream_out (N.to_nat (r_stdout r)) ++ [iopub MStatusIdle None]).
+        rewrite last_app_snoc. destruct (is_execute r); reflexivity.
+      + unfold group_ok, expected_reply, expected_iopub, ok_cell, is_execute. rewrite T, O. cbn. rewrite frames_eqb_refl, !N.eqb_refl. reflexivity.
+      + unfold group_ok, expected_reply, expected_iopub, ok_cell, is_execute. rewrite T, O. cbn. rewrite frames_eqb_refl, !N.eqb_refl. reflexivity.
+    - cbn. unfold group_ok, expected_reply, expected_iopub, ok_cell, is_execute. rewrite T. cbn. rewrite frames_eqb_refl. reflexivity.
+    - cbn. unfold group_ok, expected_reply, expected_iopub, ok_cell, is_execute. rewrite T. cbn. rewrite frames_eqb_refl. reflexivity.
+    - cbn. unfold group_ok, expected_reply, expected_iopub, ok_cell, is_execute. rewrite T. cbn. rewrite frames_eqb_refl. reflexivity.
+    - cbn. unfold group_ok, expected_reply, expected_iopub, ok_cell, is_execute. rewrite T. cbn. rewrite frames_eqb_refl. reflexivity.
+    - cbn. unfold group_ok, expected_reply, expected_iopub, ok_cell, is_execute. rewrite T. cbn. rewrite frames_eqb_refl. reflexivity.
+    - cbn. unfold group_ok, expected_reply, expected_iopub, ok_cell, is_execute. rewrite T. cbn. reflexivity.
+    - cbn. unfold group_ok, expected_reply, expected_iopub, ok_cell, is_execute. rewrite T. cbn. reflexivity.
   Qed.
 
   Lemma handle_ok_state st ids r :
